@@ -505,7 +505,16 @@ func tail(s string, n int) string {
 	return strings.Join(lines, "\n")
 }
 
+// Extra parts of the C20 check living in other packages (the stdio service
+// driver registers itself here from its init function)
+var Parts []func(r *core.Run)
+
 func Run(r *core.Run) {
+	defer func() {
+		for _, part := range Parts {
+			part(r)
+		}
+	}()
 	r.Assume("a trace rejected by BuildContextTrace on a changed tree is attributed to the code: the trace specification accepts every recorded execution of the unchanged tree")
 	r.Assume("hook events are emitted inside the critical section they report (or immediately before waitGroup.Done / after Wait), so the log order is a linearization")
 	// (1) the design: exhaustive TLC on the small configurations
